@@ -29,18 +29,20 @@ Other(x) == IF x = "A" THEN "B" ELSE "A"
      valid   www.<customer domain>            upper   the same name with upper-case letters
      spaced  the same name with white space   bare    <customer domain> (one dot)
      apex    x.<apex>                         apexup  x.<APEX in upper case>
-     acme    x.<acme zone>
-   proof: valid | missing | wrongsubject (solved for another name) | tampered (signature) | expired | easy (too few bits)
+     acme    x.<acme zone>                    apexspaced / acmespaced  the apex / ACME-zone name with white space INSIDE the zone
+     unicode a name with a non-ASCII label (denotes its punycode form)
+   proof: valid (solved for the DNS name the request denotes) | validsent (solved for the string as sent, generated where that differs) | missing | wrongsubject (solved for another name) | tampered (signature) | expired | easy (too few bits)
    cname: what the resolver answers for the hostname's challenge name: the caller's token-specific target (own),
           the other client's target (other), something else (junk), no such name (none)
    bound: the binding stored before the call: none | same (the caller) | other (the other client) *)
-HostClasses  == {"valid", "upper", "spaced", "bare", "apex", "apexup", "acme"}
-RefusedHost(h) == h \in {"bare", "apex", "apexup", "acme"}
-Proofs  == {"valid", "missing", "wrongsubject", "tampered", "expired", "easy"}
+HostClasses  == {"valid", "upper", "spaced", "bare", "apex", "apexup", "acme", "apexspaced", "acmespaced", "unicode"}
+RefusedHost(h) == h \in {"bare", "apex", "apexup", "acme", "apexspaced", "acmespaced"}
+SentDiffers(h) == h \in {"upper", "spaced", "apexup", "apexspaced", "acmespaced", "unicode"}     \* the string sent is not the name it denotes
+Proofs  == {"valid", "validsent", "missing", "wrongsubject", "tampered", "expired", "easy"}
 Cnames  == {"own", "other", "junk", "none"}
 Bounds  == {"none", "same", "other"}
-ValidateCases == [caller : Clients, method : {"validate", "instruction"}, host : HostClasses,
-                  cname : Cnames, bound : Bounds, proof : Proofs]
+ValidateCases == {x \in [caller : Clients, method : {"validate", "instruction"}, host : HostClasses,
+                         cname : Cnames, bound : Bounds, proof : Proofs] : x.proof = "validsent" => SentDiffers(x.host)}
 
 Holder(caller, b) == CASE b = "none" -> "none" [] b = "same" -> caller [] b = "other" -> Other(caller)
 
@@ -48,8 +50,8 @@ Holder(caller, b) == CASE b = "none" -> "none" [] b = "same" -> caller [] b = "o
    the character filter admits [a-z0-9-.] only) and strips white space.  Result: [ok, post] with post the holder
    of the binding afterwards *)
 CheckAcme(x, pre) ==      \* "err" | "found" | "notfound"
-  IF x.proof # "valid" THEN "err"
-  ELSE IF x.host \in {"apex", "acme"} THEN "err"        \* strings.Contains(hostname, acme / apex)
+  IF x.proof # "valid" THEN "err"                       \* the proof is verified against the normalized name: "validsent" fails too
+  ELSE IF x.host \in {"apex", "acme", "apexspaced", "acmespaced"} THEN "err"        \* strings.Contains(normalized hostname, acme / apex)
   ELSE IF x.host = "bare" THEN "err"                    \* fewer than two dots
   ELSE IF pre = "none" THEN "notfound"
   ELSE IF pre = x.caller THEN "found" ELSE "err"
@@ -70,7 +72,8 @@ StepDecl(x, pre, out) ==
   \* ... never from one client to another
   /\ pre \in Clients => out.post = pre
   \* apex, ACME-zone and bare names, and requests without a valid proof, are always refused
-  /\ (RefusedHost(x.host) \/ x.proof # "valid") => (~out.ok /\ out.post = pre)
+  \* (a proof solved for the string as sent is not classed: the other clauses hold whatever the proof)
+  /\ (RefusedHost(x.host) \/ x.proof \notin {"valid", "validsent"}) => (~out.ok /\ out.post = pre)
   \* a validation that reports success has bound the name to the caller
   /\ (out.ok /\ x.method = "validate") => out.post = x.caller
   \* a hostname held by the other client is not confirmed to the caller
@@ -109,8 +112,9 @@ Callers == {"bound", "other", "unbound"}
 Hashes  == {0, 1, 2, 3, 9}
 DLens   == {0, 20, 32, 48, 64, 65}
 HashSize(a) == CASE a = 1 -> 32 [] a = 2 -> 48 [] a = 3 -> 64 [] OTHER -> -1
-KeylessCases == [caller : Callers, proof : Proofs, method : {"get"}, hash : {0}, dlen : {0}]
-                \cup [caller : Callers, proof : Proofs, method : {"sign"}, hash : Hashes, dlen : DLens]
+KProofs == Proofs \ {"validsent"}         \* keyless requests carry the hostname as bound: sent and denoted name coincide
+KeylessCases == [caller : Callers, proof : KProofs, method : {"get"}, hash : {0}, dlen : {0}]
+                \cup [caller : Callers, proof : KProofs, method : {"sign"}, hash : Hashes, dlen : DLens]
 KeylessImpl(x) ==
   IF x.proof # "valid" THEN FALSE                  \* checkAcme: proof first
   ELSE IF x.caller = "other" THEN FALSE            \* checkAcme: bundle of another client
